@@ -167,12 +167,12 @@ def run(pid, tier, args):
         must_err = {"no-tags", "empty", "unknown-type", "nested-no-tags", "anon-leftrec", "blank-tag-then-unknown-token", "blank-tag-then-unclosed-group", "ptrptr-struct-scalar", "embedded-pointer-bad-tag", "recursive-stray-token", "mutual-recursive-stray-token"}
         for line in out.splitlines():
             name, res_ = line.split("\t")
-            if res_.startswith("panic") or res_ == "hang" or (name in must_err and res_ != "err") or (name in ("recursive", "embedded", "anon-struct", "anon-rec-string", "supported-targets", "excluded-fields", "embedded-deep", "embedded-3-levels", "embedded-6-levels", "blank-tags-then-fields", "ptr-to-slice-recursive", "ptr4-struct", "embedded-foreign-tag", "union-nonstruct-parseable", "nonstruct-parseable-field", "union-member-with-custom-field") and res_ != "ok"):
+            if res_.startswith("panic") or res_ == "hang" or (name in must_err and res_ != "err") or (name in ("recursive", "embedded", "anon-struct", "anon-rec-string", "supported-targets", "excluded-fields", "embedded-deep", "embedded-3-levels", "embedded-6-levels", "blank-tags-then-fields", "ptr-to-slice-recursive", "ptr4-struct", "embedded-foreign-tag", "union-nonstruct-parseable", "nonstruct-parseable-field", "union-member-with-custom-field", "negation-in-struct-field-tag", "ladder-40") and res_ != "ok"):
                 v.violation("struct shape %s: Build gives %s" % (name, res_), {"property": pid, "kind": "shape", "shape": name, "real": res_})
             v.validated(1)
         v.sample({"soup": lines[len(lines) // 2], "edit_case": lines2[len(lines2) // 2], "format": "id|abstract tokens|class"})
         v.notes["outcomes_by_class"] = {"soups": counts, "edits": counts2}
-        v.notes["family"] = "all token soups <= %d over the 18-symbol tag alphabet (whole-tag, parser:\"...\", split and struct-field forms); %d valid tags x every single-token insertion/deletion/replacement (%d cases); 39 struct shapes (incl. every documented capture target under value / pointer / slice / slice-of-pointer wrappers, and excluded fields)" % (3 if quick else 4, nvalid, len(cases))
+        v.notes["family"] = "all token soups <= %d over the 18-symbol tag alphabet (whole-tag, parser:\"...\", split and struct-field forms); %d valid tags x every single-token insertion/deletion/replacement (%d cases); 41 struct shapes (incl. every documented capture target under value / pointer / slice / slice-of-pointer wrappers, and excluded fields)" % (3 if quick else 4, nvalid, len(cases))
         v.cov["exhaustive"] = True
         v.assumptions += ["left recursion (also a must-error cause) is decided by C08", "MustBuild is demanded for scalar string fields; @@ is exercised on a struct-typed field"]
     return v.finish()
